@@ -149,22 +149,31 @@ example :
     takeDiff o n = [⟨0, 1, 5⟩, ⟨7, 8, 1⟩] ∧ buildPlan o n ≠ none ∧ wellFormedB o n (takeDiff o n) = true := by
   decide +kernel
 
-/-! ### survivors — the class on which the clause DOES hold for the pinned algorithm
+/-! ### survivors — the classes on which the clause DOES hold for the pinned algorithm
 
 The full clause is refuted above.  What follows is proved for all layouts in the stated classes
-(`Proofs/StateTreeDp.lean`, `StateTreeLcs.lean`, `StateTreeSum.lean`, `StateTreeSurv.lean`, `StateTreeFlat.lean`).
+(`Proofs/StateTreeDp.lean` table = recurrence, `StateTreeLcs.lean` / `StateTreeChain.lean` what the backtracking loop
+achieves, `StateTreeSum.lean` bookkeeping, `StateTreeSurv.lean` classes `addOnly` / `removeOnly`, `StateTreeFlat.lean`
+distinct voices, `StateTreeMixed.lean` edit descriptions `Kept`, class `mixedOk`, boundary `survivorsMayFail`).
 
 FULL STATEMENT (false, see `C08_survivors_counterexample`):
   `∀ o n, embeds o n = true → carried (takeDiff o n) = o.size`   and
   `∀ o n, embeds n o = true → carried (takeDiff o n) = n.size`.
-PROVED (`…_partial`): the same conclusions with `embeds` replaced by the decidable classes `addOnly` / `removeOnly`
-(`Proofs/StateTreeSurv.lean`): at every `FnCall` node that is not copied whole
-  (1) each old (new) child has the *same* score against all new (old) children it is similar to,
-  (2) the DP optimum equals the sum of these scores (= all old (new) children that are similar to anything can be
-      matched in order — the "only additions (removals)" hypothesis at this node),
-  (3) a child similar to nothing has no words, and (4) every similar child pair is again in the class.
-MISSING for the full statement: pairs with `embeds` outside the class (`survivorsMayFail`), where the greedy
-`Common` choice really loses words (both counterexamples are in it, `C08_survivors_counterexamples_in_boundary`).
+PROVED (`…_partial`): the same conclusions
+ * with `embeds` replaced by the decidable classes `addOnly` / `removeOnly`: a pair is in the class if it is copied
+   whole, or has no words to carry, or at the `FnCall` node
+     (1) each old (new) child has the *same* score against all new (old) children it is similar to,
+     (2) the DP optimum equals the sum of these scores (= all old (new) children that are similar to anything can be
+         matched in order — the "only additions (removals)" hypothesis at this node),
+     (3) a child similar to nothing has no words, and (4) every similar child pair is again in the class;
+   identically shaped siblings are allowed (the clause's "up to exchange among identically shaped siblings");
+ * for `embeds` pairs inside the decidable class `mixedOk` (similar child pairs form a chain at every node, any scores);
+   on `mixedOk` also for edits that remove *and* add subtrees: every description `Kept o n k` is honoured.
+MISSING for the full statement: pairs with `embeds` outside these classes (`survivorsMayFail`): there the greedy `Common`
+choice either really loses words (both counterexamples are in it, `C08_survivors_counterexamples_in_boundary`) or keeps
+them only by the luck of the sibling order.  Measured (exhaustive, model only): all 2 346 `embeds` pairs among the
+147 456 pairs of layouts with ≤ 4 nodes over {M1,E1,E2,D1,D2,F[]} are inside `addOnly`; with old ≤ 5 nodes, new ≤ 7 nodes
+over {M1,M2}: 19 722 `embeds` pairs, 19 442 in the class, 128 lose words, 152 keep them by sibling order.
 -/
 
 /-- the list-built DP table of `lcs_by_score` is, cell by cell, the textbook recurrence `dpS` (best total score of an
